@@ -60,6 +60,12 @@ func genC09(mode string) func(t *rapid.T) c09Case {
 				}
 			}
 		}
+		if rapid.IntRange(0, 2).Draw(t, "trailing_data") == 0 {
+			tm := genValidParams(t, mode, c.Depth, c.Batch)
+			doc := tm.writeDoc(styleHexLower)
+			tr := pick(t, "trailer2", "}", " x", "\n"+doc, "\n"+genValidParams(t, mode, c.Depth, c.Batch).writeDoc(styleHexLower), " null", "]")
+			c.Requests = append(c.Requests, genReq{Method: "POST", Body: doc + tr, Class: "trailing-data", Expect: "malformed"})
+		}
 		if rapid.IntRange(0, 2).Draw(t, "trio") == 0 {
 			for j := 0; j < 3; j++ {
 				tm := genValidParams(t, mode, c.Depth, c.Batch)
@@ -141,7 +147,7 @@ func init() {
 }
 
 func c09Required(col *stats.Collector) {
-	for _, cls := range []string{"method:GET", "not-a-document", "truncated-document", "valid", "canary", "bad-index"} {
+	for _, cls := range []string{"method:GET", "not-a-document", "truncated-document", "trailing-data", "valid", "canary", "bad-index"} {
 		col.Require("tag:req:" + cls)
 	}
 }
